@@ -36,6 +36,9 @@ pub fn signer(alg: &str) -> c2pa::BoxedSigner {
 /// Settings: fixture trust lists (so the test roots are anchors), no thumbnails, no signer section,
 /// overlaid with `overlay` (JSON).
 pub fn settings(overlay: &Value) -> Settings {
+    try_settings(overlay).expect("harness settings")
+}
+pub fn try_settings(overlay: &Value) -> c2pa::Result<Settings> {
     let toml_s = String::from_utf8(fixture("test_settings.toml")).unwrap();
     // keep only [trust] / [cawg_trust] / [core] / [verify] sections: drop signer sections (TSA URL)
     let mut keep = String::new();
@@ -53,13 +56,13 @@ pub fn settings(overlay: &Value) -> Settings {
             keep.push('\n');
         }
     }
-    let s = Settings::new().with_toml(&keep).expect("fixture settings");
+    let s = Settings::new().with_toml(&keep)?;
     let base = json!({"builder": {"thumbnail": {"enabled": false}}});
-    let s = s.with_json(&base.to_string()).expect("base overlay");
+    let s = s.with_json(&base.to_string())?;
     if overlay.is_null() {
-        s
+        Ok(s)
     } else {
-        s.with_json(&overlay.to_string()).expect("overlay")
+        s.with_json(&overlay.to_string())
     }
 }
 
